@@ -47,16 +47,32 @@ CLAIMED["C03"] = dict(
     technique="Coq proof: lockstep simulation relation over all opcodes + differential correspondence + exec oracle",
     ref="5/C03")
 CLAIMED["C05"] = dict(
-    text="Proof (layer A): the same simulation relation R gives, for every program both machines accept (any nesting, "
+    text="Proof, layer A: the simulation relation R gives, for every program both machines accept (any nesting, "
          "sharing, memo traffic): the decompiled program ends in `result = e` where e denotes the VM's value, every "
-         "mutable node holds expressions denoting the contents of the VM's object with the same index (so in-place "
-         "APPEND/SETITEM/ADDITEMS through any alias stay in sync), calls and state applications are aligned with the "
-         "VM's. Layer B (Python evaluation of the emitted text) is differential: exec(unparse(ast)) under inert "
-         "stand-ins vs the instrumented unpickler (value, events, item assignments), and for plain data at protocols "
-         "0-5 exec(result) == original object.",
-    note=BASE_NOTE + "Partial: layer B is differential only; known findings D14 (same attribute name), D15 (mutation "
-         "after capture), D17 (BUILD on a plain value, ill-typed programs).",
-    technique="Coq proof: lockstep simulation relation (value denotation) + differential exec of decompiled source",
+         "mutable node holds expressions denoting the contents of the VM's object with the same index, calls and "
+         "state applications are aligned with the VM's log. Proof, layer B (PyEval.v: a mini-Python evaluator for "
+         "the statement/expression subset fickling emits, over the reference VM's values/heap/events, node = "
+         "display of its final contents, fresh object per display): C05_plain_data_eval -- for every call-free "
+         "data program (constants, MARK/POP/POP_MARK/DUP, tuples, lists, dicts, sets, frozensets, APPEND(S), "
+         "SETITEM(S), ADDITEMS, memo PUT/GET/MEMOIZE, PROTO/FRAME, STOP; any length, nesting, sharing) whose VM "
+         "value is acyclic, evaluating the decompiled program succeeds, logs nothing and its result unfolds to "
+         "the same tree as the VM's value; C05_eval_agrees_partial -- with GLOBAL/STACK_GLOBAL/INST/OBJ/NEWOBJ/"
+         "REDUCE/BINPERSID/BUILD/SETITEM on objects the evaluated program's event log equals the VM's (same "
+         "imports, callee, arguments, persistent ids, applied state, item assignments, order, object numbering) "
+         "and the result unfolds to the same tree, under the boolean side conditions defined_before_use (D15) and "
+         "distinct_attr_names (D14); C05_vm_wellformed (hashability invariant of the VM). Tie: the extracted "
+         "evaluator applied to the model's decompilation vs exec(ast.unparse(Pickled.load(data).ast)) under inert "
+         "stand-ins (value + event log, literal comparison) on the whole C05 corpus, plus the differential "
+         "property oracle and exec(result) == original object for plain data at protocols 0-5.",
+    note=BASE_NOTE + "Partial: C05_eval_agrees_partial does not cover SETITEMS on an object (`x.update({...})`), "
+         "NEWOBJ_EX keyword arguments and BUILD/SETITEM(S) applied to a global itself (differential tie only); "
+         "observational equality compares sets/dicts by insertion history and loses sharing between displays "
+         "(tree equality of final values); Python's expression semantics is modelled (PyEval.v), tied by the "
+         "differential check, not verified against CPython. Known findings D14 (same attribute name), D15 "
+         "(mutation after capture), D17 (BUILD on a plain value), D22 (SETITEMS on an object merges/hashes keys; "
+         "notes/fix_setitems_on_object.patch), D23 (non-identifier global names decompile to invalid Python).",
+    technique="Coq proof: lockstep simulation (layer A) + evaluator soundness by induction on fuel / events "
+              "(layer B) + differential exec of decompiled source vs extracted evaluator",
     ref="5/C05")
 # entries proposed in notes/Cnn.md (written by the builders of those checks) are picked up verbatim
 import glob, re as _re
